@@ -334,6 +334,7 @@ gcdext_exact(To1& to, To2& s, To3& t, const From1& x, const From2& y,
   // Springer, 2005).
   if (y == 0) {
     if (x == 0) {
+      to = 0;
       s = 0;
       t = 1;
       return V_EQ;
